@@ -96,7 +96,7 @@ def layouts(A, rng=None):
     """Memory layouts of an array: C, F, strided view, read-only copy."""
     A = np.asarray(A)
     out = {'C': np.ascontiguousarray(A).copy()}
-    out['F'] = np.asfortranarray(A).copy() if A.ndim > 1 else A.copy()
+    out['F'] = np.array(A, order='F', copy=True) if A.ndim > 1 else A.copy()
     big = np.zeros(tuple(2 * s for s in A.shape), dtype=A.dtype)
     view = big[tuple(slice(None, None, 2) for _ in A.shape)]
     view[...] = A
